@@ -92,23 +92,27 @@ Print Assumptions C04_idempotent_refuted.
 
 (* PROVED PART of idempotence (partial): on kinds whose lists are atomic (no merge strategy in [sch], inference
    off), for patch and target that are mappings, have pairwise different keys in every mapping reached through
-   mappings ([wfk]) and -- the patch -- no "$patch" key in any mapping reached through mappings except
-   "$patch: delete" below the root ([nodir]):
+   mappings ([wfk]) and -- the patch -- in every mapping reached through mappings either no "$patch" key or one of
+   "$patch: delete" (not at the root), "$patch: replace", "$patch: merge" ([dirok]):
    applying the patch to the result gives the result again, as exact node equality (tags, styles, order).
-   Covers nulls (also inside added mappings), "$patch: delete" on mappings (present or absent in the target),
-   added / merged / unmentioned mappings, scalar and list replacement,
-   kind errors (the first application must succeed). The fragment is the boolean [idem_fragment];
-   [idem_example] (Yaml/Merge2Idem.v) is a non-trivial instance.
-   MISSING w.r.t. the full statement: "$patch: replace" / "$patch: merge" at mapping level and keyed lists
-   (where it is false for list-level directives, see C04_idempotent_refuted). *)
+   Covers nulls (also inside added / replacing mappings), the three mapping-level directives (on content present
+   or absent in the target, nested in each other), added / merged / replaced / unmentioned mappings, scalar and
+   list replacement, kind errors (the first application must succeed). The schema is shown to play no part on
+   this fragment ([walk_sc]). The fragment is the boolean [idem_fragment_dir]; [idem_example] and
+   [idem_dir_example] (Yaml/Merge2Idem.v) are non-trivial instances.
+   Guard vs finding: "atomic lists" is the complement of the two list-directive classes
+   (C04/idempotent/list-directive-copied-when-target-list-absent[-inferred-keys]); an unknown "$patch" value is an
+   error of the first application.
+   MISSING w.r.t. the full statement: keyed lists (where it is false for list-level directives, see
+   C04_idempotent_refuted). *)
 Theorem C04_idempotent_partial :
   forall (Sc : Type) (sch : schema Sc) (opts : wopts) (nonstr : string -> bool),
     atomic_lists sch opts ->
     forall p t r : node,
-      idem_fragment p t = true ->
+      idem_fragment_dir p t = true ->
       merge2 sch opts nonstr (Some p) (Some t) = Ok (Some r) ->
       merge2 sch opts nonstr (Some p) (Some r) = Ok (Some r).
-Proof. exact (@merge2_idempotent). Qed.
+Proof. exact (@merge2_idempotent_dir). Qed.
 Print Assumptions C04_idempotent_partial.
 
 (* Refinement to the reference semantics [smp_spec] of Yaml/SmpSpec.v (typed JSON values; maps recursive with the
